@@ -10,6 +10,7 @@ import (
 	"strconv"
 
 	"github.com/pojntfx/stfs/internal/converters"
+	"github.com/pojntfx/stfs/internal/ioext"
 	"github.com/pojntfx/stfs/internal/records"
 	"github.com/pojntfx/stfs/pkg/compression"
 	"github.com/pojntfx/stfs/pkg/config"
@@ -131,7 +132,9 @@ func Fetch(
 			return err
 		}
 
-		written, err := io.Copy(dstFile, verifier)
+		// Copy through a buffer; a decompressor's own `io.WriterTo` (i.e. pgzip's) may end with an empty write, and an empty
+		// write to a pipe (the streaming read path of the file system) blocks until the reading side reads once more
+		written, err := io.Copy(dstFile, ioext.OnlyReader{Reader: verifier})
 		if err != nil {
 			return err
 		}
